@@ -173,3 +173,65 @@ Definition robsd_clean (sortf : list bytes -> list bytes) (rootstr : bytes)
   end.
 
 Definition robsd_clean_exec := robsd_clean isort.
+
+(* ---- the same with the failures of mkdir and cp.  [purge_one] and
+   [robsd_clean] above describe a cleaning in which every victim reaches the
+   attic.  The loop of purge runs under `set -e` in a subshell of a pipeline:
+   when `[ -d attic ] || mkdir attic`, `mkdir -p attic/YYYY/MM` or `cp -pr`
+   onto something that is not a directory fails, the loop ends there - the
+   victim has lost its tmp and everything off the whitelist by then, stays in
+   the root, later victims are not looked at - and robsd-clean still exits 0
+   (the status of a pipeline is the status of its last command, the `while
+   read` that prints the messages). ---- *)
+Definition nondir_at (p : list bytes) (f : fstree) : bool := has_path p f && negb (is_dir_at p f).
+
+(* mkdir P for each P in turn (mkdir -p: the leading directories of the last
+   one), stopping at the first that exists and is not a directory *)
+Fixpoint mkdirs (ps : list (list bytes)) (f : fstree) : bool * fstree :=
+  match ps with
+  | [] => (true, f)
+  | p :: ps' => if nondir_at p f then (false, f) else mkdirs ps' (mkdir_one f p)
+  end.
+
+(* rm -rf "${_d}/tmp"; find "${_d}" -mindepth 1 -not ( whitelist ) -delete *)
+Definition strip_victim (f : fstree) (v : bytes) : fstree :=
+  let f1 := filter (fun e => negb (under [v; name_tmp] (f_path e))) f in
+  let sub := filter (fun e => under [v] (f_path e)) f1 in
+  filter (fun e => negb (under [v] (f_path e)) || path_beq (f_path e) [v] || survives sub e) f1.
+
+Definition purge_one_x (f : fstree) (v : bytes) : bool * fstree :=
+  if nondir_at [name_attic] f then (false, f)
+  else
+    let fa := strip_victim (mkdir_one f [name_attic]) v in
+    let dst := attic_dst v in
+    match mkdirs (proper_prefixes dst) fa with
+    | (false, fp) => (false, fp)
+    | (true, f2) => if nondir_at dst f2 then (false, f2) else (true, purge_one f v)
+    end.
+
+(* the victims in turn, the completed ones are reported *)
+Fixpoint purge_all_x (vs : list bytes) (f : fstree) : list bytes * fstree :=
+  match vs with
+  | [] => ([], f)
+  | v :: vs' =>
+      match purge_one_x f v with
+      | (false, f') => ([], f')
+      | (true, f') => let '(done, f'') := purge_all_x vs' f' in (v :: done, f'')
+      end
+  end.
+
+Definition robsd_clean_x (sortf : list bytes -> list bytes) (rootstr : bytes)
+    (keep_conf : nat) (count : option nat) (keep_attic : bool)
+    (lock : option bytes) (f : fstree) : N * bytes * fstree :=
+  match effective_keep keep_conf count with
+  | O => (0, [], f)
+  | S k =>
+      let vs := victims sortf rootstr lock (S k) f in
+      if keep_attic then
+        let '(done, f') := purge_all_x (map basename_str vs) f in
+        (0, unlines (map (clean_message true rootstr) (firstn (length done) vs)), f')
+      else
+        (0, unlines (map (clean_message false rootstr) vs), fold_left remove_tree (map basename_str vs) f)
+  end.
+
+Definition robsd_clean_x_exec := robsd_clean_x isort.
